@@ -30,7 +30,7 @@ import (
 
 type project struct {
 	Name  string
-	Kind  string            // core | tx | random | resolver-single-file | resolver-follow-schema | federation
+	Kind  string            // core | tx | random | resolver-single-file | resolver-follow-schema | federation | models-cyclic | autobind-model-package
 	Files map[string]string // pristine inputs, relative path -> content
 	Types int
 	// SingleFileResolver is the resolver file when the resolver layout is single-file ("" else)
@@ -319,6 +319,40 @@ func projects(root string, seed int64) []*project {
 		"gqlgen.yml": "schema:\n  - \"*.graphql\"\nexec:\n  filename: graph/generated.go\n  package: graph\nfederation:\n  filename: graph/federation.go\n  package: graph\n  version: 2\n" +
 			"model:\n  filename: graph/model/models_gen.go\n  package: model\nresolver:\n  layout: follow-schema\n  dir: graph\n  package: graph\nskip_mod_tidy: true\nskip_validation: true\n",
 	}})
+	// federation with explicit_requires: the populator file is read back (comments, bodies) by the next run
+	ps = append(ps, &project{Name: "fedreq", Kind: "federation", Dirs: []string{"graph", "graph/model"}, Files: map[string]string{
+		"schema.graphql": fedSchema,
+		"gqlgen.yml": "schema:\n  - \"*.graphql\"\nexec:\n  filename: graph/generated.go\n  package: graph\nfederation:\n  filename: graph/federation.go\n  package: graph\n  version: 2\n  options:\n    explicit_requires: true\n" +
+			"model:\n  filename: graph/model/models_gen.go\n  package: model\nresolver:\n  layout: follow-schema\n  dir: graph\n  package: graph\nskip_mod_tidy: true\nskip_validation: true\n",
+	}})
+	// value-typed struct fields with reference cycles of unequal multiplicity: which fields become
+	// pointers must not depend on the order the types are visited in
+	ps = append(ps, &project{Name: "cyc", Kind: "models-cyclic", Dirs: []string{"graph"}, Files: map[string]string{
+		"schema.graphql": `type Author { first: Book! second: Book! third: Book! name: String! }
+type Book { author: Author! title: String! shelf: Shelf! }
+type Shelf { a: Book! b: Book! owner: Owner! }
+type Owner { shelf: Shelf! other: Shelf! author: Author! }
+type Zed { a: Alpha! b: Alpha! }
+type Alpha { z: Zed! }
+type Query { authors: [Author!]! zed: Zed owner: Owner }
+`,
+		"gqlgen.yml": "schema:\n  - \"*.graphql\"\nexec:\n  filename: graph/generated.go\n  package: graph\n" +
+			"model:\n  filename: graph/model/models_gen.go\n  package: model\nstruct_fields_always_pointers: false\nskip_mod_tidy: true\nskip_validation: true\n",
+	}})
+	// the layout `gqlgen init` suggests: the package holding models_gen.go is also autobound, so a
+	// run over previous output sees its predecessor's generated models as candidate user models
+	ps = append(ps, &project{Name: "autob", Kind: "autobind-model-package", Dirs: []string{"graph", "graph/model"}, Files: map[string]string{
+		"schema.graphql": `type Todo { id: ID! text: String! done: Boolean! status: Status! user: User! }
+enum Status { OPEN CLOSED }
+type User { id: ID! name: String! }
+input NewTodo { text: String! userId: ID! }
+type Query { todos: [Todo!]! }
+type Mutation { createTodo(input: NewTodo!): Todo! }
+`,
+		"graph/model/user.go": "package model\n\ntype User struct {\n\tID   string\n\tName string\n}\n",
+		"gqlgen.yml": "schema:\n  - \"*.graphql\"\nexec:\n  filename: graph/generated.go\n  package: graph\n" +
+			"model:\n  filename: graph/model/models_gen.go\n  package: model\nautobind:\n  - \"verif/work/gen/c18/autob/graph/model\"\nskip_mod_tidy: true\nskip_validation: true\n",
+	}})
 	// follow-schema resolvers for types whose names the Go-name normaliser rewrites (ApiUser ->
 	// APIUser, UserId -> UserID, line_item -> LineItem): the accessor written by the first run must
 	// be recognised as already present by the second
@@ -568,6 +602,24 @@ func main() {
 				s2 := snap(dir, false)
 				rep.Count("files_hashed", int64(len(s2.hash)))
 				check(rd2, s2, &s1)
+				if i == N-1 {
+					// a third generation: an output that alternates between two forms from run to run
+					// (what a run reads back from its predecessor's output) shows up here
+					rd3 := rd2
+					rd3.Index = N
+					ok, out = gen(rd3)
+					if !ok {
+						failures++
+						failOut = out
+						violate("regeneration-over-fresh-output-fails", map[string]any{"run": rd3, "output": tail(out, 4000)})
+						continue
+					}
+					successes++
+					s3 := snap(dir, false)
+					rep.Count("files_hashed", int64(len(s3.hash)))
+					rep.Count("third_generation_runs", 1)
+					check(rd3, s3, &s2)
+				}
 			}
 			rep.Count("projects_kind="+p.Kind, 1)
 			switch {
